@@ -25,7 +25,8 @@ LEVEL = "fault_enumeration"
 RULE = ("core-fragment recipes from the typed grammar (no user callbacks, no third-party codecs) plus explicit data-dependent repeaters plus every parameter "
         "slot of every class fed from a u8/s8/VarInt field parsed just before it (n, n-3, n*n, n%5; every value of the field); (a) x random, "
         "boundary-biased, mutated-canonical inputs and zero/huge length fields, parsed through io.BytesIO and through the traced stream under a step "
-        "budget linear in input length x recipe size; (b) every truncation offset of every canonical encoding of the strict sub-grammar; (c) every "
+        "budget linear in input length x recipe size; (b) every truncation offset of every canonical encoding of the strict sub-grammar and of explicit strict formats (Unions ending at their longest "
+        "member, FocusedSeq, streamed bit regions with validated sub-byte fields), each tried again on the same object after calls on inputs rejected part-way through a byte; (c) every "
         "index k of every stream operation kind x 3 fault kinds, for parse and build. non-trivial = (a) an input the library rejected, (b) a "
         "truncation strictly inside a member, (c) a delivered fault; distinct by (recipe shape, monitor, input/fault class)")
 ASSUMPTIONS = ["a 0-byte answer to read(1) is end-of-file, not a fault; short reads are injected on reads of >= 2 bytes",
